@@ -1,5 +1,5 @@
 """C13 — MPMC FIFO is a linearizable queue (structural part: hazard typestate + publication order)."""
-from core import strip, is_field, order_ge, key_str, key_mentions
+from core import is_atomic_load, strip, is_field, order_ge, key_str, key_mentions
 from facts import AnalysisBroken
 from rules import (check_init, through_local, nodeset, callpred, atom_from, reach)
 import hazard
@@ -75,7 +75,7 @@ def run(ctx):
         c = cas[0]
         succ = lambda leaf, pol: through_local(pop, leaf) is c.node and pol is True
         for v in vals:
-            if pop.find_path(c.node, lambda n: n is v, barrier=lambda n: n.k == "AtomicExpr" and n is not c.node and "load" in (n.aop or "") ) is not None:
+            if pop.find_path(c.node, lambda n: n is v, barrier=lambda n: n is not c.node and is_atomic_load(n)) is not None:
                 bad = bad or "prev->value is read after the CAS on head"
         if pop.dominated_by(c.node, nodeset(vals)) is not None:
             bad = bad or "the CAS on head is reachable before the value was read"
